@@ -7,9 +7,11 @@ package fiber
 import (
 	"errors"
 	"sync"
+	"time"
 
 	"github.com/gofiber/fiber/v3/binder"
 	"github.com/gofiber/utils/v2"
+	"github.com/tinylib/msgp/msgp"
 	"github.com/valyala/bytebufferpool"
 )
 
@@ -296,12 +298,35 @@ func (r *Redirect) Back(fallback ...string) error {
 // parseAndClearFlashMessages is a method to get flash messages before they are getting removed
 func (r *Redirect) parseAndClearFlashMessages() {
 	// parse flash messages
-	cookieValue := r.c.Cookies(FlashCookieName)
+	cookieValue := r.c.app.getBytes(r.c.Cookies(FlashCookieName))
 
-	_, err := r.c.flashMessages.UnmarshalMsg(r.c.app.getBytes(cookieValue))
-	if err != nil {
-		return
+	// The generated decoder re-slices the pooled list to the announced length and fills only
+	// the fields present in the cookie: forget what earlier requests left in the backing array
+	r.resetFlashMessages()
+
+	// Every message takes at least one byte: a cookie cannot announce more than it holds
+	announced, _, err := msgp.ReadArrayHeaderBytes(cookieValue)
+	if err == nil && int(announced) <= len(cookieValue) {
+		var rest []byte
+		rest, err = r.c.flashMessages.UnmarshalMsg(cookieValue)
+		if err != nil || len(rest) > 0 {
+			// a cookie that is not a well-formed encoding yields no messages at all
+			r.resetFlashMessages()
+		}
 	}
+
+	// The messages are delivered once: expire the cookie
+	r.c.Cookie(&Cookie{
+		Name:    FlashCookieName,
+		Path:    "/",
+		Expires: time.Unix(1, 0),
+	})
+}
+
+func (r *Redirect) resetFlashMessages() {
+	msgs := r.c.flashMessages[:cap(r.c.flashMessages)]
+	clear(msgs)
+	r.c.flashMessages = msgs[:0]
 }
 
 // processFlashMessages is a helper function to process flash messages and old input data
@@ -319,6 +344,7 @@ func (r *Redirect) processFlashMessages() {
 	r.c.Cookie(&Cookie{
 		Name:        FlashCookieName,
 		Value:       r.c.app.getString(val),
+		Path:        "/",
 		SessionOnly: true,
 	})
 }
